@@ -18,6 +18,7 @@ from ..extract import Extractor
 from ..flow import MustFlow
 from ..model import Program, walk_own, dotted
 from ..report import AnalysisError
+from ..model import canon as K
 
 MESH = "hypnotoad/core/mesh.py"
 TOK = "hypnotoad/cases/tokamak.py"
@@ -48,27 +49,27 @@ def run(rep, tier):
 def r1_r2(prog, rep):
     mod = prog.module(TOK)
     init = mod.funcs.get("TokamakEquilibrium.__init__")
-    ifs = [n for n in walk_own(init.node) if isinstance(n, ast.If) and T(mod, n.test) == "polygons.clockwise(wall)"]
-    ok = len(ifs) == 1 and not ifs[0].orelse and len(ifs[0].body) == 1 and T(mod, ifs[0].body[0]) == "wall=wall[::-1]"
+    ifs = [n for n in walk_own(init.node) if isinstance(n, ast.If) and T(mod, n.test) == K("polygons.clockwise(wall)")]
+    ok = len(ifs) == 1 and not ifs[0].orelse and len(ifs[0].body) == 1 and T(mod, ifs[0].body[0]) == K("wall=wall[::-1]")
     rep.ob("R1", "the wall is reversed exactly when it is clockwise", ok, init.site(ifs[0]) if ifs else init.site(), "", key="wall/orientation")
-    ok = any(isinstance(s, ast.Assign) and T(mod, s) == "self.wall=[Point2D(r,z)forr,zinwall]" for s in walk_own(init.node))
+    ok = any(isinstance(s, ast.Assign) and T(mod, s) == K("self.wall=[Point2D(r,z)forr,zinwall]") for s in walk_own(init.node))
     rep.ob("R1", "self.wall holds the (normalised) wall points in order", ok, init.site(), "", key="wall/store")
     # order: normalisation precedes the store
     body = [T(mod, s) for s in init.node.body]
-    i1 = next((k for k, s in enumerate(body) if s.startswith("ifpolygons.clockwise(wall):")), None)
-    i2 = next((k for k, s in enumerate(body) if s.startswith("self.wall=")), None)
+    i1 = next((k for k, s in enumerate(body) if s.startswith(K("ifpolygons.clockwise(wall):"))), None)
+    i2 = next((k for k, s in enumerate(body) if s.startswith(K("self.wall="))), None)
     rep.ob("R1", "orientation is normalised before the wall is stored", i1 is not None and i2 is not None and i1 < i2, init.site(), "", key="wall/order")
     em = prog.module(EQ)
     ei = em.funcs.get("Equilibrium.__init__")
     src = T(em, ei.node)
-    ok = "closed_wall=self.wall+[self.wall[0]]" in src and "self.closed_wallarray=numpy.array([(p.R,p.Z)forpinclosed_wall])" in src
+    ok = K("closed_wall=self.wall+[self.wall[0]]") in src and K("self.closed_wallarray=numpy.array([(p.R,p.Z)forpinclosed_wall])") in src
     rep.ob("R2", "the closed wall array is the wall followed by its first point, columns (R, Z)", ok, ei.site(), "", key="wall/closed")
     w = prog.func(MESH, "BoutMesh.writeGridfile")
     src = T(w.module, w.node)
-    ok = 'f.write("closed_wall_R",self.equilibrium.closed_wallarray[:,0])' in src and 'f.write("closed_wall_Z",self.equilibrium.closed_wallarray[:,1])' in src
+    ok = K('f.write("closed_wall_R",self.equilibrium.closed_wallarray[:,0])') in src and K('f.write("closed_wall_Z",self.equilibrium.closed_wallarray[:,1])') in src
     rep.ob("R2", "closed_wall_R / closed_wall_Z are columns 0 / 1 of that array", ok, w.site(), "", key="wall/written")
     wi = em.funcs.get("Equilibrium.wallIntersection")
-    ok = "intersects=find_intersections(self.closed_wallarray,p1,p2)" in T(em, wi.node)
+    ok = K("intersects=find_intersections(self.closed_wallarray,p1,p2)") in T(em, wi.node)
     rep.ob("R2", "wall crossings are computed against the closed wall", ok, wi.site(), "", key="wall/used")
 
 
@@ -98,7 +99,7 @@ def r3(prog, rep):
             rep.ob("R3", "returned %s is None or has been pulled onto the flux surface by refinePoint on every path" % nm, nm in facts, f.site(node), "", key="refined/" + nm)
     rep.floor("R3.returns", n, 1)
     rets = [r for r in walk_own(f.node) if isinstance(r, ast.Return)]
-    ok = len(rets) == 1 and T(mod, rets[0].value) == "(contour,lower_intersect_index,lower_intersect,upper_intersect_index,upper_intersect,)"
+    ok = len(rets) == 1 and T(mod, rets[0].value) == K("(contour,lower_intersect_index,lower_intersect,upper_intersect_index,upper_intersect,)")
     rep.ob("R3", "the helper returns (contour, lower index, lower point, upper index, upper point)", ok, f.site(), "", key="refined/return-shape")
     # the refinement uses the local tangent of the fine contour and the region's psi
     calls = [c for c in walk_own(f.node) if isinstance(c, ast.Call) and T(mod, c.func) == "contour.refinePoint"]
@@ -107,8 +108,8 @@ def r3(prog, rep):
     # the caller unpacks in the same order
     g = prog.func(MESH, "MeshRegion.addPointAtWallToContours")
     src = T(mod, g.node)
-    ok = "self.contours=[x[0]forxinmap_result]" in src and "intersect_info_list=[x[1:]forxinmap_result]" in src and \
-        "(lower_intersect_index,lower_intersect,upper_intersect_index,upper_intersect,)=intersect_info" in src
+    ok = K("self.contours=[x[0]forxinmap_result]") in src and K("intersect_info_list=[x[1:]forxinmap_result]") in src and \
+        K("(lower_intersect_index,lower_intersect,upper_intersect_index,upper_intersect,)=intersect_info") in src
     rep.ob("R3", "the caller unpacks the result in the same order", ok, g.site(), "", key="refined/unpack")
 
 
@@ -187,7 +188,7 @@ def r4(prog, rep):
                 rep.ob("R4", "%s wall, branch %d (%s), %s index: the wall point sits at the index stored in %s" % (end, bi + 1, kind, "non-negative" if sign == "nonneg" else "negative", setter),
                        ok, g.site(body[0]) if body else g.site(blk), "point at %s ; stored %s" % (pos.show() if isinstance(pos, Rat) else pos, final.show()), key="book/%s/%d/%s" % (end, bi + 1, sign))
         # cache reset after the store
-        resets = [n for n in ast.walk(blk) if isinstance(n, ast.Expr) and T(mod, n.value) == "contour._reset_cached()"]
+        resets = [n for n in ast.walk(blk) if isinstance(n, ast.Expr) and T(mod, n.value) == K("contour._reset_cached()")]
         rep.ob("R4", "%s: cached distances/fine contour are reset after the index is stored" % end, bool(resets) and stored is not None and min(r.lineno for r in resets) > stored.lineno, g.site(blk), "", key="book/%s/reset" % end)
 
 
@@ -196,18 +197,18 @@ def r5(prog, rep):
     mod = f.module
     src = T(mod, f.node)
     facts = {
-        "mask starts at 0 for every cell": "self.penalty_mask=numpy.zeros((self.nx,self.ny))" in src,
-        "the two y-faces of cell (i,j) are ylow[i,j] and ylow[i,j+1]": "p1=Point2D(self.Rxy.ylow[i,j],self.Zxy.ylow[i,j])" in src and "p2=Point2D(self.Rxy.ylow[i,j+1],self.Zxy.ylow[i,j+1])" in src,
+        "mask starts at 0 for every cell": K("self.penalty_mask=numpy.zeros((self.nx,self.ny))") in src,
+        "the two y-faces of cell (i,j) are ylow[i,j] and ylow[i,j+1]": K("p1=Point2D(self.Rxy.ylow[i,j],self.Zxy.ylow[i,j])") in src and K("p2=Point2D(self.Rxy.ylow[i,j+1],self.Zxy.ylow[i,j+1])") in src,
         "a face is outside iff the segment from the interior reference point crosses the closed wall an odd number of times": src.count("Falseifintersectsisnoneelseintersects.shape[0]%2==1".replace("none", "None")) == 2
-        and "find_intersections(equilibrium.closed_wallarray,p0,p1)" in src and "find_intersections(equilibrium.closed_wallarray,p0,p2)" in src,
-        "both faces outside => 1": "ifp1_outsideandp2_outside:self.penalty_mask[i,j]=1.0" in src,
-        "exactly one outside => distance(outside face, wall crossing)/distance(p1,p2)": "elifp1_outsideorp2_outside:" in src and "self.penalty_mask[i,j]=calc_distance(p1ifp1_outsideelsep2,pi)/calc_distance(p1,p2)" in src
-        and "intersects=find_intersections(equilibrium.closed_wallarray,p1,p2)" in src and "pi=Point2D(intersects[0,0],intersects[0,1])" in src,
-        "the reference point is the centre of the equilibrium's bounding box": "p0=Point2D((equilibrium.Rmax+equilibrium.Rmin)/2,(equilibrium.Zmax+equilibrium.Zmin)/2,)" in src,
-        "every cell is visited": "foriinrange(self.nx):forjinrange(self.ny):" in src,
+        and K("find_intersections(equilibrium.closed_wallarray,p0,p1)") in src and K("find_intersections(equilibrium.closed_wallarray,p0,p2)") in src,
+        "both faces outside => 1": K("ifp1_outsideandp2_outside:self.penalty_mask[i,j]=1.0") in src,
+        "exactly one outside => distance(outside face, wall crossing)/distance(p1,p2)": K("elifp1_outsideorp2_outside:") in src and K("self.penalty_mask[i,j]=calc_distance(p1ifp1_outsideelsep2,pi)/calc_distance(p1,p2)") in src
+        and K("intersects=find_intersections(equilibrium.closed_wallarray,p1,p2)") in src and K("pi=Point2D(intersects[0,0],intersects[0,1])") in src,
+        "the reference point is the centre of the equilibrium's bounding box": K("p0=Point2D((equilibrium.Rmax+equilibrium.Rmin)/2,(equilibrium.Zmax+equilibrium.Zmin)/2,)") in src,
+        "every cell is visited": K("foriinrange(self.nx):forjinrange(self.ny):") in src,
     }
     for k, ok in facts.items():
         rep.ob("R5", "penalty mask: " + k, ok, f.site(), "", key="mask/" + k)
     geo = prog.func(MESH, "BoutMesh.geometry")
-    ok = "self.penalty_mask[self.region_indices[region.myID]]=region.penalty_mask" in T(mod, geo.node)
+    ok = K("self.penalty_mask[self.region_indices[region.myID]]=region.penalty_mask") in T(mod, geo.node)
     rep.ob("R5", "region masks are assembled with the region index map", ok, geo.site(), "", key="mask/assemble")
